@@ -24,7 +24,7 @@ class Unsupported(Exception):
 
 
 # ----------------------------------------------------------------------------- tokenizer / parser
-TOK = re.compile(r"\s*(?:(\d[\d_]*(?:u\d+|i\d+|usize)?)|([A-Za-z_][A-Za-z0-9_]*)|(::|->|=>|==|!=|<<|&&|\|\||[-+*/&|!.,;:(){}\[\]<>=#'?])|(\"(?:[^\"\\\\]|\\\\.)*\"))")
+TOK = re.compile(r"\s*(?:(\d[\d_]*(?:u\d+|i\d+|usize)?)|([A-Za-z_][A-Za-z0-9_]*)|(::|->|=>|==|!=|<<|>=|<=|\.\.|&&|\|\||[-+*/&|!.,;:(){}\[\]<>=#'?])|(\"(?:[^\"\\\\]|\\\\.)*\"))")
 
 
 def tokenize(src):
@@ -54,6 +54,7 @@ class Parser:
     def __init__(self, toks):
         self.t = toks
         self.i = 0
+        self.no_struct = False
 
     def peek(self, k=0):
         return self.t[self.i + k] if self.i + k < len(self.t) else ("eof", "")
@@ -79,7 +80,7 @@ class Parser:
             if self.at("let"):
                 self.next()
                 if self.at("mut"):
-                    raise Unsupported("`let mut`")
+                    self.next()   # mutation happens only through `&mut` arguments of contracted callees (rebinding)
                 pat = self.pattern()
                 if self.at(":"):
                     self.next()
@@ -88,6 +89,19 @@ class Parser:
                 e = self.expr()
                 self.expect(";")
                 stmts.append(("let", pat, e))
+            elif self.at("if"):
+                # early-return guard:  if COND { return <expr>; }   (no else)
+                self.next()
+                self.no_struct = True
+                cond = self.expr()
+                self.no_struct = False
+                self.expect("{")
+                self.expect("return")
+                self.expr()            # the error value: parsed, never evaluated
+                if self.at(";"):
+                    self.next()
+                self.expect("}")
+                stmts.append(("guard", None, cond))
             else:
                 e = self.expr()
                 if self.at(";"):
@@ -130,7 +144,7 @@ class Parser:
                 return
             self.next()
 
-    PREC = {"==": 0, "|": 1, "&": 3, "<<": 4, "+": 5, "-": 5, "*": 6}
+    PREC = {"..": 0, "==": 1, "!=": 1, ">": 1, "<": 1, ">=": 1, "<=": 1, "|": 2, "&": 4, "<<": 5, "+": 6, "-": 6, "*": 7}
 
     def expr(self, minp=0):
         lhs = self.unary()
@@ -149,7 +163,11 @@ class Parser:
         if tok[0] == "p" and tok[1] in ("-", "!", "&", "*"):
             self.next()
             if tok[1] == "&" and self.at("mut"):
-                raise Unsupported("&mut")
+                self.next()
+                e = self.unary()
+                if e[0] != "path" or len(e[1]) != 1:
+                    raise Unsupported("&mut of something that is not a local")
+                return ("mutref", e[1][0])
             e = self.unary()
             if tok[1] in ("&", "*"):
                 return e
@@ -223,6 +241,19 @@ class Parser:
                 if tok[0] == "num":
                     e = ("field", e, tok[1])
                 elif tok[0] == "id":
+                    if self.at("::") and self.peek(1)[1] == "<":
+                        self.next()
+                        depth = 0
+                        while True:
+                            t2 = self.next()
+                            if t2[0] == "eof":
+                                raise Unsupported("unterminated turbofish")
+                            if t2[1] == "<":
+                                depth += 1
+                            elif t2[1] == ">":
+                                depth -= 1
+                                if depth == 0:
+                                    break
                     if self.at("("):
                         e = ("mcall", e, tok[1], self.args())
                     else:
@@ -237,6 +268,12 @@ class Parser:
             elif self.at("?"):
                 self.next()
                 e = ("try", e)
+            elif self.at("as"):
+                # numeric cast: ignored (values are mathematical integers here)
+                self.next()
+                t2 = self.next()
+                if t2[0] != "id":
+                    raise Unsupported("cast to a non-path type")
             else:
                 return e
 
@@ -252,6 +289,11 @@ class Parser:
             items = []
             while not self.at("]"):
                 items.append(self.expr())
+                if self.at(";"):
+                    self.next()
+                    cnt = self.expr()
+                    self.expect("]")
+                    return ("repeat", items[0], cnt)
                 if self.at(","):
                     self.next()
             self.next()
@@ -276,7 +318,10 @@ class Parser:
             while not self.at("]"):
                 items.append(self.expr())
                 if self.at(";"):
-                    raise Unsupported("array repeat expression")
+                    self.next()
+                    cnt = self.expr()
+                    self.expect("]")
+                    return ("repeat", items[0], cnt)
                 if self.at(","):
                     self.next()
             self.next()
@@ -315,7 +360,7 @@ class Parser:
                 path.append(t2[1])
             if self.at("(") and not (len(path) == 1 and path[0] in ("if", "match")):
                 return ("call", path, self.args())
-            if self.at("{") and path[-1][0].isupper():
+            if self.at("{") and path[-1][0].isupper() and not self.no_struct:
                 self.next()
                 fields = {}
                 while not self.at("}"):
@@ -355,6 +400,20 @@ class Struct:
 class Tuple:
     def __init__(self, items):
         self.items = items
+
+
+class MutRef:
+    """`&mut local`: lets a contracted callee rebind the local"""
+
+    def __init__(self, loc, name):
+        self.loc = loc
+        self.name = name
+
+    def get(self):
+        return self.loc[self.name]
+
+    def set(self, v):
+        self.loc[self.name] = v
 
 
 class Opt:
@@ -501,6 +560,17 @@ def ev(env, e, loc):
         return v.value
     if k == "macro":
         return Struct("Opaque", {"_name": e[1] + "!"})
+    if k == "mutref":
+        if e[1] not in loc:
+            raise Unsupported("&mut of unknown local %s" % e[1])
+        return MutRef(loc, e[1])
+    if k == "repeat":
+        cnt = ev(env, e[2], loc)
+        if isinstance(cnt, sp.Integer) and int(cnt) <= 64 and e[1][0] == "num":
+            return Tuple([sp.Integer(e[1][1])] * int(cnt))      # small byte buffers
+        if not is_poly(cnt):
+            raise Unsupported("repeat count is not an integer expression")
+        return Struct("Vec", {"len": cnt})
     if k == "tuple":
         return Tuple([ev(env, x, loc) for x in e[1]])
     if k == "struct":
@@ -545,6 +615,14 @@ def ev(env, e, loc):
                 return a - b
             if op == "<<" and a.is_Integer and b.is_Integer:
                 return a * 2 ** int(b)
+            if op == "==":
+                return ("eq", sp.expand(a - b))
+            if op == "!=":
+                return b_not(("eq", sp.expand(a - b)))
+            if op in (">", "<", ">=", "<="):
+                return ("atom", "%s %s %s" % (sp.expand(a), op, sp.expand(b)))
+            if op == "..":
+                return Struct("Range", {"lo": a, "hi": b})
             raise Unsupported("operator %s on field values" % op)
         if isinstance(a, tuple) and isinstance(b, tuple) and op in ("&", "|"):
             return b_and(a, b) if op == "&" else b_or(a, b)
@@ -601,7 +679,17 @@ def bind(loc, pat, val):
 def run_body(env, body_text, loc):
     stmts, tail = parse_body(body_text)
     loc = dict(loc)
-    for _, pat, e in stmts:
+    for kind, pat, e in stmts:
+        if kind == "guard":
+            c = ev(env, e, loc)
+            if not isinstance(c, tuple):
+                raise Unsupported("guard condition is not a boolean formula")
+            # execution continues only where the condition is false
+            if c[0] == "not" and c[1][0] == "eq":
+                env.hyps.append(c[1][1])          # `if a != b { return .. }`: a == b from here on
+            nc = c[1] if c[0] == "not" else b_not(c)
+            env.path = nc if env.path is None else b_and(env.path, nc)
+            continue
         bind(loc, pat, ev(env, e, loc))
     if tail is None:
         raise Unsupported("no tail expression")
